@@ -119,6 +119,8 @@ pub enum Step {
 	Reopen,
 	Checkpoint,
 	Restore,
+	/// open the checkpoint directory (a copy) as a database of its own and compare
+	VerifyCheckpoint,
 	/// install / clear faults at this point of the history
 	Faults { specs: Vec<FaultSpec> },
 	ClearFaults,
